@@ -4,6 +4,8 @@ CONSTANTS
   MCFields = {"time_begin", "time_end", "facecolor", "show_label", "zorder"}
   MCValues = {"a", "b"}
   MCSub = ""
+  WithReplace = FALSE
+  DEV_CachedSubParams = FALSE
   MaxSets = 2
   WMax = 6
   TMax = 8
